@@ -241,6 +241,58 @@ theorem finish_other (k : K) (j a : Nat) (h : RegInv k) (hwd : (k.actor a).wanna
     intro _; rfl
   exact finishLoop_other _ j _ a h1 hwd hj
 
+/-- `finish()` of activity `i` DOES wake the actor at the front of its simcall list when that actor is blocked and
+not dying: it is answered (scheduled, no longer in a simcall) and registered nowhere any more -/
+theorem finishOne_wakes (k : K) (i a : Nat) (rest : List Nat) (h : RegInv k) (hs : (k.impl i).simcalls = a :: rest)
+    (hb : (k.actor a).blocked = true) (hwd : (k.actor a).wannadie = false) :
+    a ∈ (k.finishOne i a).toRun ∧ ((k.finishOne i a).actor a).blocked = false ∧
+    ((k.finishOne i a).actor a).waiting = [] ∧ ((k.finishOne i a).actor a).tcb = none := by
+  obtain ⟨va, vi⟩ := h.valid_of_mem i a (by rw [hs]; simp)
+  obtain ⟨h1, h2, h3, h4⟩ := ufAll_reg k i a rest h hs
+  have hwd' : ((k.ufAll i a).actor a).wannadie = false := by
+    have : ((k.ufAll i a).arF a).wd = false := by rw [h3]; exact hwd
+    exact this
+  have hb' : ((k.ufAll i a).actor a).blocked = true := by
+    obtain ⟨_, _, q3⟩ := uf12_reg k i a rest h hs
+    have vi2 : i < ((k.uf1 i a).uf2 a).impls.length := by
+      rw [((shr_uf1 k i a).trans (shr_uf2 _ a)).nimpl]; exact vi
+    obtain ⟨g1, g2, g3⟩ := uf12_reg k i a rest h hs
+    obtain ⟨_, _, _, _, _, g6⟩ := uf3_reg ((k.uf1 i a).uf2 a) i a g1 g2 vi2
+    have : ((k.ufAll i a).arF a).blocked = (k.arF a).blocked := by
+      unfold K.ufAll; rw [g6, g3]; simp
+    exact this.trans hb
+  have hw' : ((k.ufAll i a).actor a).waiting = [] := h4 hwd
+  have ht' : ((k.ufAll i a).actor a).tcb = none := h2
+  have hlen : a < (k.ufAll i a).actors.length := by rw [(shr_ufAll k i a).nact]; exact va
+  unfold K.finishOne
+  simp only [hb', hwd', Bool.not_false, Bool.and_self, if_true]
+  -- the state answered: ufAll, owners erased, possibly `res := cancelExc`
+  have key : ∀ k0 : K, (k0.actor a).blocked = true → (k0.actor a).waiting = [] → (k0.actor a).tcb = none →
+      a < k0.actors.length →
+      a ∈ (k0.answer a).toRun ∧ ((k0.answer a).actor a).blocked = false ∧ ((k0.answer a).actor a).waiting = [] ∧
+      ((k0.answer a).actor a).tcb = none := by
+    intro k0 b0 w0 t0 l0
+    unfold K.answer
+    simp only [b0, if_true]
+    refine ⟨by simp, ?_, ?_, ?_⟩
+    · show ((k0.setActor a _).actor a).blocked = false
+      rw [actor_setActor_same _ _ _ l0]
+    · show ((k0.setActor a _).actor a).waiting = []
+      rw [actor_setActor_same _ _ _ l0]; exact w0
+    · show ((k0.setActor a _).actor a).tcb = none
+      rw [actor_setActor_same _ _ _ l0]; exact t0
+  split
+  · apply key
+    · rw [actor_setActor_proj (·.blocked) _ a a _ (by intro _; rfl)]; exact hb'
+    · rw [actor_setActor_proj (·.waiting) _ a a _ (by intro _; rfl)]; exact hw'
+    · rw [actor_setActor_proj (·.tcb) _ a a _ (by intro _; rfl)]; exact ht'
+    · simpa using hlen
+  · apply key
+    · exact hb'
+    · exact hw'
+    · exact ht'
+    · simpa using hlen
+
 /-- the timeout of another actor's wait does not touch `a` -/
 theorem fire_timeout_other (k : K) (t : Timer) (b a : Nat) (hcb : cbActor t.cb = some b) (h : a ≠ b) :
     (k.fire t).actor a = k.actor a := by
@@ -306,5 +358,38 @@ theorem wait_for_double_registration_regression : ¬ RegInv kOldFired := by
   have := (h.idle 0 h4 hid).1
   rw [show (kOldFired.arF 0).waiting = (kOldFired.actor 0).waiting from rfl, h1] at this
   cases this
+
+/-! the example states satisfy the invariant (non-vacuity of the theorems that assume it) -/
+
+theorem kReg0_reg : RegInv kReg0 := by
+  have ha : ∀ a, kReg0.arF a = if a = 0 then
+      ({ prog := [.waitFor 0 0], stage := 1, blocked := true, slots := [(0, 0, .started)] } : Actor).ar
+      else dfltActor.ar := by
+    intro a; cases a <;> simp [K.arF, K.actor, kReg0, dfltActor]
+  have hs : ∀ i, kReg0.simF i = [] := by
+    intro i; cases i <;> simp [K.simF, K.impl, kReg0]
+  refine ⟨?_, ?_, ?_, ?_, ?_, ?_, ?_, ?_, ?_, ?_, ?_, ?_⟩
+  · intro a i _; rw [hs, ha]; split <;> simp [Actor.ar, dfltActor]
+  · intro a _ _; rw [ha]; split <;> simp [Actor.ar, dfltActor]
+  · intro a _; rw [ha]; left; split <;> simp [Actor.ar, dfltActor]
+  · intro t ht; simp [kReg0] at ht
+  · simp [kReg0]
+  · intro t ht; simp [kReg0] at ht
+  · intro a id hid; rw [ha] at hid; split at hid <;> simp [Actor.ar, dfltActor] at hid
+  · intro a id hid; rw [ha] at hid; split at hid <;> simp [Actor.ar, dfltActor] at hid
+  · intro a i hi; rw [ha] at hi; split at hi <;> simp [Actor.ar, dfltActor, kReg0] at hi ⊢
+    omega
+  · intro a i hi; rw [ha] at hi; split at hi <;> simp [Actor.ar, dfltActor] at hi
+  · intro a hr; rw [ha] at hr; split at hr <;> simp [Actor.ar, dfltActor] at hr
+  · intro a _ hp; rw [ha] at hp; split at hp <;> simp [Actor.ar, dfltActor] at hp
+
+theorem kReg0_hpre : HPre kReg0 0 := by
+  refine ⟨?_, ?_, ?_, ?_, ?_, ?_⟩ <;> simp [kReg0, K.actor]
+
+theorem kNew_reg : RegInv kNew := handle_reg 0 kReg0 0 (.waitFor 0 0) kReg0_reg kReg0_hpre (by simp [Req.idx, kReg0])
+
+theorem kNew_shape : (kNew.impl 0).simcalls = [0] ∧ (kNew.actor 0).blocked = true ∧
+    (kNew.actor 0).wannadie = false ∧ kNew.timers[0]? = some { id := 0, date := 0 + 0, cb := .wto 0 0 } := by
+  simp [kNew, kReg0, K.handle, K.register, K.setImpl, K.setActor, K.actor, K.impl, upd, K.timerSet]
 
 end SgVerif.TimeCore
